@@ -40,20 +40,20 @@ func GenerateConverters(c *GenerateConfig) error {
 func generateConvertersRaw(c *GenerateConfig) (map[string][]byte, error) {
 	if c.WorkingDir != "" && !filepath.IsAbs(c.WorkingDir) {
 		// resolve a relative working directory once, so that the package loader and the
-		// @cwd/ output paths are spelled through the same path: relative to the physical
-		// working directory, like the operating system resolves it (filepath.Abs goes
-		// through $PWD, which may name a symbolic link; '..' then leads somewhere else)
-		wd, err := os.Getwd()
-		if err != nil {
-			return nil, err
+		// @cwd/ output paths are spelled through the same path: the directory the operating
+		// system resolves it to (filepath.Abs goes through $PWD, which may name a symbolic
+		// link; '..' then leads somewhere else, and the go command looks for go.mod in the
+		// parents of the link)
+		if wd, err := os.Getwd(); err == nil {
+			// not filepath.Join, which removes 'link/..' lexically
+			abs, err := filepath.EvalSymlinks(wd + string(filepath.Separator) + c.WorkingDir)
+			if err != nil {
+				abs = filepath.Join(wd, c.WorkingDir)
+			}
+			cfg := *c
+			cfg.WorkingDir = abs
+			c = &cfg
 		}
-		if physical, err := filepath.EvalSymlinks(wd); err == nil {
-			wd = physical
-		}
-		abs := filepath.Join(wd, c.WorkingDir)
-		cfg := *c
-		cfg.WorkingDir = abs
-		c = &cfg
 	}
 	rawConverters, err := comments.ParseDocs(comments.ParseDocsConfig{
 		BuildTags:      c.BuildTags,
